@@ -8,7 +8,7 @@ import shutil
 import subprocess
 import sys
 
-SCRATCH = "/tmp/intake_wt"
+SCRATCH = os.environ.get("INTAKE_WT", "/tmp/intake_wt")
 
 
 def sh(cmd, cwd=None, timeout=900):
@@ -39,7 +39,10 @@ def main():
         if rc != 0:
             print("DOES-NOT-APPLY", name, out.strip()[:200])
             return 3
-        env = "cd %s && PYTHONPATH=%s /venv/bin/python %s" % (SCRATCH, SCRATCH, demo)
+        os.makedirs(os.path.join(SCRATCH, "seed_out"), exist_ok=True)
+        local_demo = os.path.join(SCRATCH, "seed_out", os.path.basename(demo))
+        shutil.copy(demo, local_demo)  # some demos locate the tree relative to their own path
+        env = "cd %s && PYTHONPATH=%s /venv/bin/python %s" % (SCRATCH, SCRATCH, local_demo)
         rc0, o0 = sh(env)
         ran.append({"cmd": "demo on HEAD without the change", "exit": rc0})
         sh("git apply %s" % use, cwd=SCRATCH)
